@@ -118,7 +118,7 @@ def catalog():
 
 def evaluate(case):
     prog = case["prog"]
-    s, w = progs.run_case(case, trace_funcs=["_run_poll_fn"])
+    s, w = progs.run_case(case, trace_funcs=["_run_poll_fn", "_poll_loop"])
     info = {"end": s.end_reason, "steps": s.steps, "preemptions": s.preemptions}
     viols = []
 
@@ -180,6 +180,12 @@ def evaluate(case):
         k, d = ev[3], ev[4]
         if k == "enter" and d["func"] == "_run_poll_fn":
             last_enter = ev[0]
+        elif k == "enter" and d["func"] == "_poll_loop":
+            # control is back in the loop: the round of the latest call (the call itself plus what _run_poll_fn does with its
+            # outcome - failing the futures a raising call was shown) is over
+            if calls and open_call is None and "round_end" not in calls[-1]:
+                calls[-1]["round_end"] = ev[0]
+                calls[-1]["round_end_t"] = ev[1]
         elif k == "poll_call" and d["fn"] == PFN:
             if open_call is not None:
                 bad("poll-calls-overlap", first=open_call["k"], second=d["k"])
@@ -305,8 +311,8 @@ def evaluate(case):
             continue  # cancelled at about the same time: no poll is owed
         # a call that starts after the trigger ... (the trigger may also fall inside a call in progress: then the NEXT call)
         after = [c for c in calls if c["seq"] > seq]
-        inprog = [c for c in calls if c["seq"] < seq and (c["end"] is None or c["end"] > seq)]
-        base_t = max([t] + [c.get("end_t", t) for c in inprog])
+        inprog = [c for c in calls if c["seq"] < seq and (c.get("round_end", c["end"]) is None or c.get("round_end", c["end"]) > seq)]
+        base_t = max([t] + [c.get("round_end_t", c.get("end_t", t)) for c in inprog])
         # a poll that began while the completing call was still running has seen the registration already
         covering = [c for c in calls if F is not None and F["comp_start"] is not None and F["comp_start"] < c["seq"] < seq and F["name"] + ".fn" in [(models.origin(r) or [0, 0])[1] for r in c["results"]]]
         if covering:
@@ -389,7 +395,7 @@ def case_strategy():
         ncalls = draw(st.integers(1, 6))
         calls = [draw(st.sampled_from([{}, {}, {}, {"raise": "E2"}, {"ret": 0.25}, {"ret": "bogus"}, {"vsleep": 0.25}, {"op": ["notify", "ex"]},
                                        {"vsleep": 0.25, "raise": "E2"}, {"vsleep": 0.5, "raise": "E2"}])) for _ in range(ncalls)] + [{}]
-        cancel = draw(st.one_of(st.none(), st.lists(st.sampled_from([["ret", True], ["ret", False], ["raise", "E3"]]), min_size=1, max_size=3)))
+        cancel = draw(st.one_of(st.none(), st.lists(st.sampled_from([["ret", True], ["ret", False], ["raise", "E3"], ["vsleep", 0.3, ["ret", True]], ["vsleep", 0.6, ["ret", False]]]), min_size=1, max_size=3)))
         nthreads = draw(st.integers(1, 2))
         threads = [[] for _ in range(nthreads)]
         for i in range(n):
